@@ -4,6 +4,7 @@ package main
 // conflicts (C14), a rejected handshake line that is followed by more output (C10).
 
 import (
+	"bytes"
 	"crypto/rand"
 	"errors"
 	"fmt"
@@ -189,6 +190,54 @@ func runAutoMTLSCertFault() (impl, pred string) {
 		return "fault-not-injected " + impl, "ok" // this toolchain's certificate generation does not read the swapped source
 	case serr == nil:
 		return impl, "FAIL:start-succeeded-without-certificate"
+	}
+	return impl, "ok"
+}
+
+func init() { registerPlugin("servemux", pluginServeMux) }
+
+// pluginServeMux: a plugin binary built on plugin.ServeMux (one binary, the plugin type named on the command line).
+// `gpv plugin servemux <args…>` is such a binary invoked with <args…>.
+func pluginServeMux(args []string) {
+	os.Args = append([]string{os.Args[0]}, args...)
+	vp, _ := kitSets(&kitServeCfg{Sets: map[string]string{"3": "netrpc"}})
+	plugin.ServeMux(plugin.ServeMuxMap{
+		"kit": &plugin.ServeConfig{HandshakeConfig: kitHandshake(), VersionedPlugins: vp, Logger: nullLogger()},
+	})
+}
+
+// runServeMuxRefusal: a ServeMux binary started by hand — without the magic cookie, with whatever command line: it prints
+// nothing on stdout and exits with status 1 (also when the command line itself is wrong).
+func runServeMuxRefusal(args []string, cookieEnv []string) (impl, pred string) {
+	cmd := exec.Command(selfExe(), append([]string{"plugin", "servemux"}, args...)...)
+	cmd.Env = append([]string{"TMPDIR=" + os.Getenv("VERIF_WORK")}, cookieEnv...)
+	var so, se bytes.Buffer
+	cmd.Stdout, cmd.Stderr = &so, &se
+	done := make(chan error, 1)
+	if err := cmd.Start(); err != nil {
+		return "setup-error", "FAIL:setup-start"
+	}
+	go func() { done <- cmd.Wait() }()
+	var werr error
+	select {
+	case werr = <-done:
+	case <-time.After(8 * time.Second):
+		cmd.Process.Kill()
+		<-done
+		return "still-running", "FAIL:cookie-less-plugin-kept-running"
+	}
+	code := 0
+	if ee, ok := werr.(*exec.ExitError); ok {
+		code = ee.ExitCode()
+	} else if werr != nil {
+		code = -1
+	}
+	impl = fmt.Sprintf("exit=%d stdout=%d", code, so.Len())
+	switch {
+	case so.Len() != 0:
+		return impl, "FAIL:cookie-less-plugin-wrote-to-stdout"
+	case code != 1:
+		return impl, "FAIL:cookie-less-plugin-exit-status-not-1"
 	}
 	return impl, "ok"
 }
